@@ -220,6 +220,60 @@ def gen_store(c, name, consts, workers=4, timeout=3000, check_theorems=True):
     return out, len(res.cases)
 
 
+_DEPTH = {1: 0, 2: 1, 4: 2, 3: 3, 5: 4, 6: 5, 7: 6}   # mt, imm, l0b (newer L0 table), l0a, l1, l2, l3
+
+
+def _valid_layout(store, pl):
+    """LSM invariant: of two versions of a key the newer one is never deeper than the older one"""
+    for i, e in enumerate(store):
+        for j, f in enumerate(store):
+            if e["k"] == f["k"] and e["ts"] > f["ts"] and _DEPTH[pl[i]] > _DEPTH[pl[j]]:
+                return False
+    return True
+
+
+def layout_stage(c, tab, seed, label, quick, kinds='{"val", "del", "exp"}', parts=("all", "compact")):
+    """Reads are the same whatever the physical layout: every store of <= 2 versions over 2 keys
+    (versions 1..2, read at 2) under EVERY placement of its versions over 7 sources (active /
+    immutable memtable, two L0 tables, L1, L2, L3) in managed mode: (A) all placements, also those
+    only a value-log GC write-back can produce (older version above a newer one): Get of every key
+    and plain / reverse / prefix iterators must equal the prediction; (B) the placements that respect
+    the LSM order, after SetDiscardTs(2) and one level-to-next-level compaction (and, thorough, an
+    L0 compaction): same predictions (ReadStableAboveDiscard)."""
+    kc = key_consts(tab)
+    user = [i + 1 for i, k in enumerate(tab) if not k.startswith(b"!badger!")]
+    sk = user[:2]
+    queries = query_set(seeks=[0] + sk, sinces=[0], prefixes=[sk[0]], alls=("FALSE",))
+    cons = dict(kc, StoreKeys=tla_set(sk), TsSet="1..2", Kinds=kinds, MaxVersions="2", Contiguous="FALSE", ReadTs="2",
+                Now="5", NSrc="7", NMixed="-1", Queries=queries)
+    groups, n = gen_store(c, label, cons, workers=8, timeout=3000)
+    stats = {}
+    confs = ["managed+inmem"] if quick else ["managed+inmem", "managed+vlog"]
+    nall = sum(len(g["pl"]) for g in groups)
+    for conf in confs if "all" in parts else ():
+        replay(c, groups, conf, seed, label + "-all-placements", keys=tab, mode="store", nproc=vlib.NCPU, collect=stats, timeout=3000)
+    valid = []
+    for g in groups:
+        pl = [p for p in g["pl"] if _valid_layout(g["store"], p)]
+        if pl:
+            valid.append(dict(g, pl=pl, discardTs=2))
+    nvalid = sum(len(g["pl"]) for g in valid)
+    posts = (["compactDown"],) if quick else (["compactDown"], ["compactL0"], ["compactL0", "compactDown"])
+    for post in posts if "compact" in parts else ():
+        for g in valid:
+            g["post"] = post
+        for conf in confs:
+            replay(c, valid, conf, seed, label + "-then-" + "+".join(post), keys=tab, mode="store", nproc=vlib.NCPU,
+                   collect=stats, timeout=3000)
+    c.cov["layout_stage"] = {"stores": len(groups), "placements_all": nall, "placements_respecting_lsm_order": nvalid,
+                             "gets_compared": stats.get("get", 0), "iterator_runs_compared": stats.get("query", 0),
+                             "compactions_run": stats.get("compactDown", 0) + stats.get("compactL0", 0)}
+    c.cov["layout_stage"]["parts"] = list(parts)
+    if "compact" in parts and stats.get("compactDown", 0) == 0:
+        raise Inconclusive("layout stage ran no compaction")
+    return ((nall if "all" in parts else 0) + (nvalid if "compact" in parts else 0)) * len(confs)
+
+
 def replay(c, cases, config, seed, label, timeout=3600, nproc=None, keys=None, mode="hist", flags=(),
            cwd=None, sig_prefix="kv", max_report=3, collect=None, tmpdir=None):
     """Replay cases with kvreplay under a DB configuration; report mismatches as violations
